@@ -195,6 +195,20 @@ def Q.to [Mul α] [Div α] (types : List (Rule α)) (q : Q α) (b2 : BU α) : Q 
   | .ok g => ({ val := q.val.map g, bu := b2 }, true)
   | .error _ => (q, false)
 
+/-- `Quantity.to(units)` when `units` is itself a `Quantity` (e.g. `Unit().m`, `2*Unit('s')`,
+    `Quantity(2,'s')`) with scalar magnitude `tm` and base units `tb`:
+    `self.magnitude = self._convert(self.magnitude, self.baseunits, units.baseunits) / units.magnitude`,
+    one statement — the division happens only after a successful conversion, so a refusal
+    leaves the quantity as it was. -/
+def Q.toQuantity [Mul α] [Div α] (types : List (Rule α)) (q : Q α) (tm : α) (tb : BU α) : Q α × Bool :=
+  match pick types q.bu tb with
+  | .ok g => ({ val := q.val.map (fun x => g x / tm), bu := tb }, true)
+  | .error _ => (q, false)
+
+/-- `Unit().<symbol>` / `Unit(symbol)`: a *fresh* `Quantity(1, symbol)` on every access. -/
+def unitAttr [Mul α] [One α] [PowFrac α] (tag : Nat) (items : List (Item α)) : Q α :=
+  Q.init tag (.scalar 1) items
+
 /-! ## Specification -/
 
 /-- What the property prescribes for a conversion of `x` with factors `f1`, `f2`. -/
